@@ -599,7 +599,14 @@ class CastUnmarshaller(AbstractUnmarshaller[T]):
         if isinstance(decoded, self.t):
             return decoded
         # Cast the decoded value to the type.
-        return self.caster(decoded)
+        try:
+            return self.caster(decoded)
+        except (TypeError, ValueError):
+            # The text itself may be the value (e.g., a path or an enum value which reads as a number).
+            text = serdes.decode(val)
+            if text is decoded or not isinstance(text, str):
+                raise
+            return self.caster(text)
 
 
 PathUnmarshaller = CastUnmarshaller[pathlib.Path]
